@@ -14,6 +14,8 @@ structure Hier where
   bases : ClassId → List ClassId
   /-- position of the class in the order of `(__module__, __qualname__)` (the key `RewriteLargeUnion` breaks ties with) -/
   rank : ClassId → Nat := fun c => c
+  /-- `issubclass(_, a)` raises TypeError for this class (a `typing.Protocol` that is not runtime-checkable) -/
+  unchk : ClassId → Bool := fun _ => false
 
 def Hier.sub (h : Hier) (c d : ClassId) : Bool := (h.mro c).contains d
 
@@ -89,9 +91,15 @@ def toTupleOf (ts : List Ty) : Option Ty :=
 
 def Ty.clsId? : Ty → Option ClassId | .cls c => some c | _ => none
 
-/-- the ancestors of the first member (other than `object`) that every member is a subclass of, in the order of that MRO -/
-def commonAncestors (h : Hier) (c0 : ClassId) (ts : List Ty) : List ClassId :=
-  (h.mro c0).filter (fun a => a != objectC && ts.all (fun t => match t with | .cls c => h.sub c a | _ => false))
+/-- the MROs of the class members, concatenated -/
+def classMros (h : Hier) (ts : List Ty) : List ClassId :=
+  ts.flatMap (fun t => match t with | .cls c => h.mro c | _ => [])
+
+/-- the ancestors of any member (other than `object`, each once, in first-seen order) that every member is a subclass of;
+    a class `issubclass` refuses is no candidate -/
+def commonAncestors (h : Hier) (ts : List Ty) : List ClassId :=
+  (classMros h ts).eraseDups.filter
+    (fun a => a != objectC && !h.unchk a && ts.all (fun t => match t with | .cls c => h.sub c a | _ => false))
 
 /-- those with no other member of the list below them -/
 def mostSpecific (h : Hier) (cs : List ClassId) : List ClassId :=
@@ -108,14 +116,11 @@ def largeUnionCollapse (h : Hier) (ts : List Ty) : Ty :=
   match toTupleOf ts with
   | some t => t
   | none =>
-    match ts with
-    | .cls c0 :: _ =>
-      if ts.all (fun t => t.clsId?.isSome) then
-        match minByRank h (mostSpecific h (commonAncestors h c0 ts)) with
-        | some a => .cls a
-        | none => .any
-      else .any
-    | _ => .any
+    if ts.all (fun t => t.clsId?.isSome) then
+      match minByRank h (mostSpecific h (commonAncestors h ts)) with
+      | some a => .cls a
+      | none => .any
+    else .any
 
 /-- `RewriteMostSpecificCommonBase._compute_bases`, most specific first (the Python list reversed):
     follow single inheritance upwards, stop at `object` or after a class with several (or no) bases -/
